@@ -204,6 +204,8 @@ class Repo:
                     tree = ast.parse(src, filename=rel)
                 except SyntaxError as e:
                     raise AnalysisError("engine", f"syntax-error file={rel}:{e.lineno} {e.msg}")
+                from .canon import canonicalise
+                tree = canonicalise(tree)  # one canonical shape per behaviour (see sa/canon.py)
                 name = rel[:-3].replace(os.sep, ".")
                 if name.endswith(".__init__"):
                     name = name[: -len(".__init__")]
@@ -447,3 +449,12 @@ def _sub_bodies(s):
 def loc(fi_or_mod, node) -> str:
     m = fi_or_mod.module if isinstance(fi_or_mod, (FuncInfo, ClassInfo)) else fi_or_mod
     return f"{m.rel}:{getattr(node, 'lineno', 0)}"
+
+
+def ctext(expr_text: str) -> str:
+    """Canonical text of an expression given as source text (same canonicalisation as the loaded modules)."""
+    from .canon import Canon
+    tree = ast.parse(expr_text, mode="eval")
+    tree = Canon().visit(tree)
+    ast.fix_missing_locations(tree)
+    return norm(tree.body)
